@@ -46,7 +46,7 @@ class WebsocketSession(object):
     def __init__(self, websocket):
         self.websocket = websocket
         self._address = (websocket.host, websocket.port)
-        self._lock = threading.Lock()
+        self._lock = threading.RLock()
         self._sock = None
         self._poll_start = None
         self._next_ping = None
@@ -111,10 +111,16 @@ class WebsocketSession(object):
         self.write(frame.to_bytes(), closing=(opcode == Opcode.CLOSE))
         log.debug(' SRV <- CLI : %r', frame)
 
-    def send_compressed(self, opcode, data):
+    def send_compressed(self, opcode, data, compress=None):
         """Send a compressed WS Frame."""
-        frame = Frame(opcode, payload=bytearray(data), rsv1=1)
-        self.write(frame.to_bytes())
+        # Compress and write under the same lock, so that the order in
+        # which messages enter the (shared) deflate context is the order
+        # of their frames on the wire.
+        with self._lock:
+            if compress is not None:
+                data = compress(data)
+            frame = Frame(opcode, payload=bytearray(data), rsv1=1)
+            self.write(frame.to_bytes())
         log.debug(' SRV <- CLI : %r', frame)
 
     @classmethod
